@@ -61,7 +61,11 @@ Docs ==
      \* 8: Int leaves (nullable, non-null, under an object) fed with every Go integer representation
      QDoc(<< Fld(1, "a", <<>>), Fld(2, "nn", <<>>), Fld(3, "o", << Fld(4, "w", <<>>), Fld(5, "x", <<>>) >>) >>),
      \* 9: Float, Boolean, ID and String leaves fed with every Go representation of a value of the type
-     QDoc(<< Fld(1, "fl", <<>>), Fld(2, "bo", <<>>), Fld(3, "idf", <<>>), Fld(4, "s", <<>>), Fld(5, "fnn", <<>>) >>)
+     QDoc(<< Fld(1, "fl", <<>>), Fld(2, "bo", <<>>), Fld(3, "idf", <<>>), Fld(4, "s", <<>>), Fld(5, "fnn", <<>>) >>),
+     \* 10: values that are not null themselves but serialise to nothing legal, at nullable and non-null leaves
+     QDoc(<< Fld(1, "a", <<>>), Fld(2, "fl", <<>>), Fld(3, "cuf", <<>>),
+             Fld(4, "o", << Fld(5, "x", <<>>) >>), Fld(6, "fnn", <<>>) >>),
+     QDoc(<< Fld(1, "a", <<>>), Fld(2, "cunn", <<>>) >>)
   >>
 
 Site(t, f, src, kind) == [t |-> t, f |-> f, src |-> src, kind |-> kind]
@@ -87,11 +91,13 @@ Sites ==
         Site("Q", "e", "*", "enum"), Site("Q", "uo", "*", "absU") >>,
      << Site("Q", "a", "*", "goint"), Site("Q", "nn", "*", "goint"), Site("O", "w", "r.o", "goint") >>,
      << Site("Q", "fl", "*", "goflt"), Site("Q", "bo", "*", "gobool"), Site("Q", "idf", "*", "goid"),
-        Site("Q", "s", "*", "gostr"), Site("Q", "fnn", "*", "goflt") >>
+        Site("Q", "s", "*", "gostr"), Site("Q", "fnn", "*", "goflt") >>,
+     << Site("Q", "fl", "*", "sernull"), Site("Q", "cuf", "*", "sernullcu"), Site("Q", "fnn", "*", "sernull") >>,
+     << Site("Q", "cunn", "*", "sernullcu") >>
   >>
 
 K(k) == [k |-> k]
-TKinds == {"absT", "absTlist", "objT", "enumlist", "absU", "goint", "goflt", "gobool", "goid", "gostr"}
+TKinds == {"absT", "absTlist", "objT", "enumlist", "absU", "goint", "goflt", "gobool", "goid", "gostr", "sernull", "sernullcu"}
 GoLeaf(g, v) == [k |-> "goleaf", g |-> g, val |-> v]
 IntReps == {"int", "i8", "i16", "i32", "i64", "u8", "u16", "u32", "u64", "uint", "pint", "pi8", "pi16", "pi32", "pi64",
             "pu8", "pu16", "pu32", "pu64", "puint"}
@@ -108,6 +114,8 @@ TAlpha(kind) ==
     [] kind = "goflt" -> { GoLeaf(g, FloatV("1.5")) : g \in {"f64", "f32", "pf64", "pf32"} }
                          \cup { GoLeaf(g, IntV("5")) : g \in IntReps }
                          \cup { GoLeaf(g, NullV) : g \in {"nilpf64", "nilpf32", "nilpint", "nilpu16", "nilpi64"} }
+    [] kind = "sernull" -> { GoLeaf("strnan", NullV) }
+    [] kind = "sernullcu" -> { GoLeaf("cunilp", NullV) }
     [] kind = "gobool" -> { GoLeaf("bool", BoolV(TRUE)), GoLeaf("bool", BoolV(FALSE)), GoLeaf("pbool", BoolV(TRUE)),
                             GoLeaf("pbool", BoolV(FALSE)), GoLeaf("nilpbool", NullV) }
     [] kind = "gostr" -> StrReps
